@@ -550,6 +550,17 @@ pub fn copy_empty_view() {
     assert!(t.data()[0] == 1 && t.data()[3] == 4, "C14 copying into an empty view is a no-op");
 }
 
+pub fn copy_owned_empty() {
+    let mut t: TooDee<u8> = TooDee::default();
+    let s: TooDee<u8> = TooDee::default();
+    t.copy_from_toodee(&s);
+    t.clone_from_toodee(&s.view((0, 0), (0, 0)));
+    let e: [u8; 0] = [];
+    t.copy_from_slice(&e);
+    t.clone_from_slice(&e);
+    assert!(wf(&t) && t.size() == (0, 0), "C14 copying between empty arrays is a no-op");
+}
+
 // ---------------------------------------------------------------- cells()/cells_mut() (C10) -- op sequences, bounded
 /// two symbolic operations then drain forward; compared against row-major order
 pub fn cells_ops<const C: usize, const R: usize, const N: usize>() {
@@ -583,6 +594,40 @@ pub fn cells_ops<const C: usize, const R: usize, const N: usize>() {
     assert!(it.len() == hi - lo, "C10 len after ops");
     let g = it.next();
     if lo < hi { assert!(g == Some(&a[lo]), "C10 next after ops"); } else { assert!(g.is_none()); }
+}
+
+/// both ends meet inside one row: `f` cells from the front, then drain from the back (and the mirror image)
+pub fn cells_meet<const C: usize, const R: usize, const N: usize, const F: usize, const BACK_FIRST: bool>() {
+    // the split point and direction are const parameters (a symbolic split exhausts CBMC)
+    let (t, a) = mk::<N>(C, R);
+    let f: usize = F;
+    let from_back_first: bool = BACK_FIRST;
+    let mut it = t.cells();
+    let mut lo = 0;
+    let mut hi = N;
+    let mut i = 0;
+    while i < f {
+        if from_back_first {
+            assert!(it.next_back() == Some(&a[hi - 1]), "C10 next_back (first phase)");
+            hi -= 1;
+        } else {
+            assert!(it.next() == Some(&a[lo]), "C10 next (first phase)");
+            lo += 1;
+        }
+        i += 1;
+    }
+    assert!(it.len() == hi - lo, "C10 len between phases");
+    let mut j = 0;
+    while j < N + 1 {
+        if from_back_first {
+            let g = it.next();
+            if lo < hi { assert!(g == Some(&a[lo]), "C10 next (second phase)"); lo += 1; } else { assert!(g.is_none()); }
+        } else {
+            let g = it.next_back();
+            if lo < hi { assert!(g == Some(&a[hi - 1]), "C10 next_back (second phase)"); hi -= 1; } else { assert!(g.is_none()); }
+        }
+        j += 1;
+    }
 }
 
 // (sort: even 2x2 sort_by_row / sort_by_col exceed 10 min in CBMC - std's sort on a boxed side buffer - so no Kani harness exists for C16/C17)
@@ -731,3 +776,28 @@ hl!(k_translate_window_2x2_m1_0, translate_window, 2, 2, 16, 1, 0);
 hl!(k_translate_window_2x2_m0_1, translate_window, 2, 2, 16, 0, 1);
 hl!(k_translate_window_3x4_m1_2, translate_window, 3, 4, 30, 1, 2);
 hl!(k_translate_window_3x4_m2_2, translate_window, 3, 4, 30, 2, 2);
+h!(k_copy_owned_empty, copy_owned_empty,);
+hl!(k_cells_meet_2x2_f0_f, cells_meet, 2, 2, 4, 0, false);
+hl!(k_cells_meet_2x2_f0_t, cells_meet, 2, 2, 4, 0, true);
+hl!(k_cells_meet_2x2_f1_f, cells_meet, 2, 2, 4, 1, false);
+hl!(k_cells_meet_2x2_f1_t, cells_meet, 2, 2, 4, 1, true);
+hl!(k_cells_meet_2x2_f2_f, cells_meet, 2, 2, 4, 2, false);
+hl!(k_cells_meet_2x2_f2_t, cells_meet, 2, 2, 4, 2, true);
+hl!(k_cells_meet_2x2_f3_f, cells_meet, 2, 2, 4, 3, false);
+hl!(k_cells_meet_2x2_f3_t, cells_meet, 2, 2, 4, 3, true);
+hl!(k_cells_meet_2x2_f4_f, cells_meet, 2, 2, 4, 4, false);
+hl!(k_cells_meet_2x2_f4_t, cells_meet, 2, 2, 4, 4, true);
+hl!(k_cells_meet_3x2_f0_f, cells_meet, 3, 2, 6, 0, false);
+hl!(k_cells_meet_3x2_f0_t, cells_meet, 3, 2, 6, 0, true);
+hl!(k_cells_meet_3x2_f1_f, cells_meet, 3, 2, 6, 1, false);
+hl!(k_cells_meet_3x2_f1_t, cells_meet, 3, 2, 6, 1, true);
+hl!(k_cells_meet_3x2_f2_f, cells_meet, 3, 2, 6, 2, false);
+hl!(k_cells_meet_3x2_f2_t, cells_meet, 3, 2, 6, 2, true);
+hl!(k_cells_meet_3x2_f3_f, cells_meet, 3, 2, 6, 3, false);
+hl!(k_cells_meet_3x2_f3_t, cells_meet, 3, 2, 6, 3, true);
+hl!(k_cells_meet_3x2_f4_f, cells_meet, 3, 2, 6, 4, false);
+hl!(k_cells_meet_3x2_f4_t, cells_meet, 3, 2, 6, 4, true);
+hl!(k_cells_meet_3x2_f5_f, cells_meet, 3, 2, 6, 5, false);
+hl!(k_cells_meet_3x2_f5_t, cells_meet, 3, 2, 6, 5, true);
+hl!(k_cells_meet_3x2_f6_f, cells_meet, 3, 2, 6, 6, false);
+hl!(k_cells_meet_3x2_f6_t, cells_meet, 3, 2, 6, 6, true);
